@@ -618,7 +618,9 @@ func c11Check(sc *c11Scenario, obs *c11Obs, r *vrt.Result, timeConsistent func()
 			// process exits, must not be answered with an error
 			// (a timeout reply written at a virtual time at which the route timer was due is explained by
 			// the timer: the scheduler let that much time pass)
-			timerDue := f.Status == bolt.ResponseStatusTimeout && f.AtMs >= int64(sc.RouteTimeoutMs)
+			// (C03 accepts bolt "unknown" next to "timeout" for a request ended by its timer: the reset
+			// reason may be read before it is stored)
+			timerDue := (f.Status == bolt.ResponseStatusTimeout || f.Status == bolt.ResponseStatusUnknown) && f.AtMs >= int64(sc.RouteTimeoutMs)
 			if obs.InFlight[i] && f.Status != bolt.ResponseStatusSuccess && c11AllOK(rq) && sc.TryTimeoutMs == 0 &&
 				sc.RouteTimeoutMs > sc.DrainMs+c11PollMs && rq.TimeoutMs == 0 && !timerDue {
 				report(fmt.Sprintf("request in flight at the signal answered with an error although its upstream answers OK: status=%d phase-at-signal=%s deviations=%d", f.Status, obs.PhaseSig[i], r.Cost),
